@@ -18,9 +18,9 @@ structure Conforming (c : Config) (t : Tape) (l : Layout) (atts : List (UInt8 ×
   partition : (l.blocks ct).flatten = ct
   blocks : ∀ b ∈ l.blocks ct, b ≠ [] ∧ b.length < 4294967296
 
-theorem slice_mid (site : String) (a b c : Bytes) :
-    slice site (a ++ b ++ c) a.length (a.length + b.length) = .ok b := by
-  unfold slice
+theorem sliceE_mid (a b c : Bytes) :
+    sliceE (a ++ b ++ c) a.length (a.length + b.length) = .ok b := by
+  unfold sliceE
   have : a.length ≤ a.length + b.length ∧ a.length + b.length ≤ (a ++ b ++ c).length := by
     simp only [List.length_append]; omega
   simp only [this, and_self, ↓reduceIte]
@@ -54,22 +54,22 @@ theorem C01_framing (P : Prims) (L : P.Laws) (c : Config) (t : Tape) (l : Layout
     simpa [List.append_assoc] using this
   simp only [bind, Outcome.bind, hp]
   -- the four slices
-  have s1 : slice "decrypt_kdbx4:index" (header ++ sha ++ mac ++ stream) 0 header.length = .ok header := by
-    have := slice_mid "decrypt_kdbx4:index" [] header (sha ++ mac ++ stream)
+  have s1 : sliceE (header ++ sha ++ mac ++ stream) 0 header.length = .ok header := by
+    have := sliceE_mid [] header (sha ++ mac ++ stream)
     simpa [List.append_assoc] using this
-  have s2 : slice "decrypt_kdbx4:index" (header ++ sha ++ mac ++ stream) header.length (header.length + 32) = .ok sha := by
-    have := slice_mid "decrypt_kdbx4:index" header sha (mac ++ stream)
+  have s2 : sliceE (header ++ sha ++ mac ++ stream) header.length (header.length + 32) = .ok sha := by
+    have := sliceE_mid header sha (mac ++ stream)
     rw [hshaL] at this
     simpa [List.append_assoc] using this
-  have s3 : slice "decrypt_kdbx4:index" (header ++ sha ++ mac ++ stream) (header.length + 32) (header.length + 64) = .ok mac := by
-    have := slice_mid "decrypt_kdbx4:index" (header ++ sha) mac stream
+  have s3 : sliceE (header ++ sha ++ mac ++ stream) (header.length + 32) (header.length + 64) = .ok mac := by
+    have := sliceE_mid (header ++ sha) mac stream
     simp only [List.length_append, hshaL, hmacL] at this
     have e : header.length + 32 + 32 = header.length + 64 := by omega
     rw [e] at this
     exact this
-  have s4 : slice "decrypt_kdbx4:index" (header ++ sha ++ mac ++ stream) (header.length + 64)
+  have s4 : sliceE (header ++ sha ++ mac ++ stream) (header.length + 64)
       (header ++ sha ++ mac ++ stream).length = .ok stream := by
-    unfold slice
+    unfold sliceE
     have : header.length + 64 ≤ (header ++ sha ++ mac ++ stream).length
         ∧ (header ++ sha ++ mac ++ stream).length ≤ (header ++ sha ++ mac ++ stream).length := by
       simp only [List.length_append, hshaL, hmacL]; omega
